@@ -157,6 +157,79 @@ theorem filter_finds (q : Int → Bool) (src : Nat → Int) : ∀ (c p : Nat), (
         rw [this]; exact hq⟩
       exact ⟨i, by simp [h0, hi], hqi⟩
 
+theorem bound_prepend_list (xs : List Int) (src : Nat → Int) (n : Nat) : pulls (prependListT xs) src n ≤ n := by
+  have := run_bound (prependListT xs) src 1 (fun _ => True)
+    (fun s p _ => ⟨by simp only [prependListT]; split <;> simp, trivial⟩) n 0 0 trivial
+  simpa [pulls, prependListT] using this
+
+theorem bound_add_list (xs : List Int) (src : Nat → Int) (n : Nat) : pulls (addListT xs) src n ≤ n := by
+  have := run_bound (addListT xs) src 1 (fun _ => True) (fun s p _ => ⟨by simp [addListT], trivial⟩) n 0 0 trivial
+  simpa [pulls, addListT] using this
+
+theorem bound_zip_map (f : Int → Int) (src : Nat → Int) (n : Nat) : pulls (zipMapT f) src n ≤ n := by
+  have := run_bound (zipMapT f) src 1 (fun _ => True) (fun s p _ => ⟨by simp [zipMapT], trivial⟩) n () 0 trivial
+  simpa [pulls] using this
+
+theorem bound_interleave_map (f : Int → Int) (src : Nat → Int) (n : Nat) : pulls (interleaveMapT f) src n ≤ n := by
+  have := run_bound (interleaveMapT f) src 1 (fun _ => True)
+    (fun s p _ => ⟨by cases s <;> simp [interleaveMapT], trivial⟩) n none 0 trivial
+  simpa [pulls, interleaveMapT] using this
+
+theorem bound_chunks_map (k : Nat) (f : Int → Int) (src : Nat → Int) (n : Nat) : pulls (chunksMapT k f) src n ≤ k * n := by
+  have := run_bound (chunksMapT k f) src k (fun _ => True) (fun s p _ => ⟨by simp [chunksMapT], trivial⟩) n () 0 trivial
+  simpa [pulls] using this
+
+/-- flatten of chunks of two: at most one item is pulled ahead of what has been handed out -/
+theorem flatten_chunks_run (src : Nat → Int) : ∀ (n : Nat) (s : Option Int) (p : Nat),
+    (runFrom flattenChunks2T src n s p).2.2 ≤ p + n + (if s.isNone ∧ 0 < n then 1 else 0) := by
+  intro n
+  induction n with
+  | zero => intro s p; simp [runFrom]
+  | succ n ih =>
+    intro s p
+    cases s with
+    | none =>
+      have := ih (some (src (p + 1))) (p + 2)
+      simp only [runFrom, flattenChunks2T] at this ⊢
+      simp at this ⊢
+      omega
+    | some y =>
+      have := ih none p
+      simp only [runFrom, flattenChunks2T] at this ⊢
+      simp at this ⊢
+      split at this <;> omega
+
+theorem bound_flatten_chunks (src : Nat → Int) (n : Nat) : pulls flattenChunks2T src n ≤ n + 1 := by
+  have := flatten_chunks_run src n none 0
+  simp only [pulls, flattenChunks2T] at this ⊢
+  split at this <;> omega
+
+theorem bound_uniq (c : Nat) (src : Nat → Int) (n : Nat) : pulls (uniqT c) src n ≤ c * n := by
+  have hstep : StepBound (uniqT c) src c (fun _ => True) := by
+    intro s p _
+    refine ⟨?_, trivial⟩
+    simp only [uniqT]
+    cases h : findNext (fun x => !s.contains x) src c p with
+    | none => simp
+    | some i => have := findNext_bound _ src c p i h; simp; omega
+  have := run_bound (uniqT c) src c (fun _ => True) hstep n [] 0 trivial
+  simpa [pulls, uniqT] using this
+
+/-- uniquify never hands out an item twice (as long as the window finds a new item) -/
+theorem uniq_step_new (c : Nat) (src : Nat → Int) (seen : List Int) (p i : Nat)
+    (h : findNext (fun x => !seen.contains x) src c p = some i) : src i ∉ seen := by
+  have : ∀ (c p : Nat), findNext (fun x => !seen.contains x) src c p = some i → src i ∉ seen := by
+    intro c
+    induction c with
+    | zero => intro p h; simp [findNext] at h
+    | succ c ih =>
+      intro p h
+      simp only [findNext] at h
+      split at h
+      · rename_i hq; injection h with h; subst h; simpa using hq
+      · exact ih _ h
+  exact this c p h
+
 /-- linear bounds compose: a pipeline of linear stages is linear, at any depth -/
 theorem bound_compose (a1 b1 a2 b2 : Nat) (p1 p2 : Nat → Nat)
     (h1 : ∀ n, p1 n ≤ a1 * n + b1) (h2 : ∀ n, p2 n ≤ a2 * n + b2) (n : Nat) :
